@@ -550,7 +550,7 @@ func c10compositeKeyEscaped(c *an.Ctx) {
 }
 
 // c10rawScanBehindSemantics — C10.R12.  searchTSIDsByTagFilter is the raw positive scan of a tag
-// filter; what k='', k!='', k!='v', k!~/re/ and /.*/ select is decided in
+// filter; what k=”, k!=”, k!='v', k!~/re/ and /.*/ select is decided in
 // getTSIDsByTagFilterNoRegex / getTSIDsByTagFilterWithRegex (absent tag ≙ empty string).  A caller
 // that goes to the raw scan directly skips that case analysis.
 func c10rawScanBehindSemantics(c *an.Ctx) {
